@@ -57,6 +57,21 @@ func factsC01(r *Repo) []Fact {
 		out = append(out, Fact{Name: "stepGuardOp", Type: "String", Value: leanStr(op), Where: "comparison operator of the guard"})
 		out = append(out, boolFact("stepGuardOnlyNonDag", onlyNonDag, "guard is conjoined with !r.dag"))
 	}
+	// --- the limit is validated before the loop: if maxSteps < 1 { return error } ---
+	validated := false
+	if fd != nil {
+		ast.Inspect(fd.Body, func(n ast.Node) bool {
+			if is, ok := n.(*ast.IfStmt); ok && exprString(is.Cond) == "maxSteps<1" {
+				for _, st := range is.Body.List {
+					if _, isRet := st.(*ast.ReturnStmt); isRet {
+						validated = true
+					}
+				}
+			}
+			return true
+		})
+	}
+	out = append(out, boolFact("limitValidated", validated, "compose/graph_run.go runner.run: a limit below 1 is refused before the loop"))
 	// --- default slack: r.options.maxRunSteps = len(r.chanSubscribeTo) + N in graph.compile ---
 	slack := -1
 	if cfd, _ := cp.Func("graph", "compile"); cfd != nil {
